@@ -69,6 +69,12 @@ check("C13", "fault_enumeration",
   "Corruption of page headers, footers and page indexes is outside the statement; pages whose CRC is exactly 0 are not verified by the library (1 in 2^32).",
   "DESIGN.md §2 C13")
 
+check("C14", "fault_enumeration",
+  "exhaustive fault enumeration at the io.Writer / io.ReaderAt seams: every byte offset of the sink (4 failure behaviours), every sink call of a multi-chunk file (4 intra-call positions), every truncation length, every ReadAt call index (6 contract-conformant failure answers), across writer configurations and open options",
+  "For 12 writer configurations the fault-free output is recorded, then the same write history is replayed against a sink that fails at every byte offset (partial write + error then dead, one short write without error, dead forever, one-shot error then recovered) and - for a 2500/6000-row file spanning several 32 KiB page-buffer chunks - at every sink call after 0/1/half/all-but-one bytes: a nil error from Write/Flush/Close is only accepted if the sink holds the complete file. Every strict prefix of every file is opened with 5 option sets and read to the end: it must be rejected. Every ReadAt call of open+read is failed in 6 ways incl. EOF and short reads: either an error surfaces or all rows are the original ones; rows returned before an error are a prefix of the original; nothing panics.",
+  "Encryption and the remaining option combinations are not crossed with the sweeps; a sink that returns (0, nil) forever is not modelled (the standard library's bufio.Writer itself never terminates on it).",
+  "DESIGN.md §2 C14")
+
 NOT_YET = "check not built yet in this round (design in DESIGN.md §2); not claimed until its check exists"
 
 m = {
